@@ -181,8 +181,8 @@ fn all_orders_space(rep: &mut Report, n: usize) {
 }
 
 pub fn run(ctx: &Ctx, rep: &mut Report) {
+    space(ctx, rep, 6);
     if !ctx.lean {
-        space(ctx, rep, 6);
         space(ctx, rep, 7);
     }
     all_orders_space(rep, 6);
